@@ -259,8 +259,20 @@ class Ctx:
         for (t, pol) in cfg.guards_of(self.node(fn, astnode)):
             if t.kind == 'test':
                 term = ex.term(t.ast, t)
-                for (t2, p2) in guard_equivalents(term, pol):
-                    out.append((t2, p2, t.ast))
+                seen = set()
+                todo = [(term, pol)]
+                while todo:
+                    (x, p) = todo.pop()
+                    for (t2, p2) in guard_equivalents(x, p):
+                        if (t2, p2) in seen:
+                            continue
+                        seen.add((t2, p2))
+                        out.append((t2, p2, t.ast))
+                        # facts implied by a true conjunction / a false disjunction
+                        if t2[0] == 'bool' and ((t2[1] == 'and' and p2) or
+                                                (t2[1] == 'or' and not p2)):
+                            for item in t2[2]:
+                                todo.append((item, p2))
         return out
 
     def guard_groups(self, fn, astnode):
